@@ -28,9 +28,12 @@ type c22RefSeries struct {
 
 type c22Model struct {
 	Series map[string]*c22RefSeries // by series key
+	Kinds  map[string]byte          // field name -> type (one type per field name in a dataset)
 }
 
-func c22NewModel() *c22Model { return &c22Model{Series: map[string]*c22RefSeries{}} }
+func c22NewModel() *c22Model {
+	return &c22Model{Series: map[string]*c22RefSeries{}, Kinds: map[string]byte{}}
+}
 
 func (m *c22Model) Put(w c22Write) {
 	k := w.Meas + "," + c22TagString(w.Tags)
@@ -46,6 +49,7 @@ func (m *c22Model) Put(w c22Write) {
 	}
 	for f, v := range w.Fields {
 		p[f] = v
+		m.Kinds[f] = v.K
 	}
 }
 
@@ -99,6 +103,9 @@ type c22Query struct {
 	GroupTags  []string
 	GroupStar  bool
 	StarDims   []string // keys the engine expanded GROUP BY * to (validated, see dims)
+	// UnorderedSeries: compare the emitted series as a set (C23: the property is about values
+	// and timestamps of the functions, not about the order of output series).
+	UnorderedSeries bool
 	Fill       byte // 0 unspecified, 'n' null, 'x' none, 'p' previous, 'l' linear, '#' number
 	FillNum    int64
 	Desc       bool
@@ -135,6 +142,11 @@ type c22ExpSeries struct {
 	Name   string
 	Tags   map[string]string
 	Groups [][]c22ExpRow
+	// Optional: the series has input values but the function yields no value in any window
+	// (percentile index out of range everywhere): emitted as all-null rows or not at all.
+	Optional bool
+	// EmptyCols[i]: call column i has no input value at all in this output series.
+	EmptyCols []bool
 	// Verify, when set, replaces the row comparison (top/bottom: any valid choice among ties).
 	Verify func(got []c22OutRow) string
 }
@@ -150,6 +162,8 @@ type c22Expect struct {
 	AllSeries       []c22ExpSeries
 	WeakSeriesOrder bool
 	StoredSeries    int // stored series of the queried measurement(s) (upper bound for page sweeps)
+	// Notes: facts about the evaluated case that name a trigger narrowly in violation features.
+	Notes map[string]string
 }
 
 func c22ValCell(v sk.Val) c22Cell {
@@ -443,8 +457,14 @@ func (c c22Col) name() string {
 // ---------------------------------------------------------------------------------------
 // evaluation
 
+// c22CurKinds: field types of the model being evaluated (single-threaded evaluator).
+var c22CurKinds map[string]byte
+var c22CurNotes map[string]string
+
 func (m *c22Model) Eval(q *c22Query) *c22Expect {
-	exp := &c22Expect{}
+	c22CurKinds = m.Kinds
+	exp := &c22Expect{Notes: map[string]string{}}
+	c22CurNotes = exp.Notes
 	for _, c := range q.Cols {
 		exp.Columns = append(exp.Columns, c.name())
 	}
@@ -746,6 +766,9 @@ func c22AggTable(q *c22Query, g *c22Group, cols []c22Col, applyFill bool) (times
 // result type of a column given its input values: 'i' or 'f' (or 's'/'b' for first/last/mode)
 func c22ResultKind(c c22Col, vals []c22PV) byte {
 	in := byte('f')
+	if k, ok := c22CurKinds[c.Field]; ok {
+		in = k
+	}
 	if len(vals) > 0 {
 		in = vals[0].V.K
 	}
@@ -976,6 +999,9 @@ func c22Agg(c c22Col, in []c22PV) (c22ExpCell, []int64) {
 		for _, ix := range idxs {
 			if ix < 0 || ix >= n {
 				alts = c22AddAlt(alts, c22Cell{})
+				if len(idxs) == 1 && c22CurNotes != nil {
+					c22CurNotes["percentile_undefined_for_some_window"] = "true"
+				}
 				continue
 			}
 			v := c22ValCell(sorted[ix].V)
@@ -1015,10 +1041,36 @@ func c22EvalAgg(q *c22Query, g *c22Group) *c22ExpSeries {
 		return nil
 	}
 	s := &c22ExpSeries{Name: g.Name, Tags: g.Tags}
+	for _, c := range q.Cols {
+		s.EmptyCols = append(s.EmptyCols, len(c22ColVals(g, c.Field)) == 0)
+	}
+	if q.Interval != 0 {
+		_, rawTable, _ := c22AggTable(q, g, q.Cols, false)
+		s.Optional = true
+		for _, row := range rawTable {
+			for _, c := range row {
+				if !c.isNull() {
+					s.Optional = false
+				}
+			}
+		}
+	}
 	for wi, w := range ws {
 		ta := []int64{w}
 		if talts != nil {
 			ta = talts[wi]
+		}
+		// A column whose field has no value at all in this output series (while another column
+		// has): the engine reports null there (the field "does not exist" for the series) also
+		// where count()/fill(<n>) would report 0/<n> for an interval without data. The
+		// documentation speaks of intervals without data, not of series without the field:
+		// both accepted.
+		for ci := range table[wi] {
+			if s.EmptyCols[ci] && !table[wi][ci].isNull() {
+				c := table[wi][ci]
+				c.Alts = append(append([]c22Cell(nil), c.Alts...), c22Cell{})
+				table[wi][ci] = c
+			}
 		}
 		s.Groups = append(s.Groups, []c22ExpRow{{TAlts: ta, Cells: table[wi]}})
 	}
@@ -1091,24 +1143,68 @@ func c22EvalXform(q *c22Query, g *c22Group, exp *c22Expect) *c22ExpSeries {
 	if len(in) == 0 {
 		return nil
 	}
-	unit := c.Unit
+	defUnit := int64(0)
+	if c.Inner != "" {
+		defUnit = q.Interval
+	}
+	outs := c23Seq(c.Func, in, c.Unit, defUnit, c.N)
 	s := &c22ExpSeries{Name: g.Name, Tags: g.Tags}
-	add := func(t int64, cell c22Cell) {
-		s.Groups = append(s.Groups, []c22ExpRow{{TAlts: []int64{t}, Cells: []c22ExpCell{c22One(cell)}}})
+	if c.Func == "integral" {
+		// general rule: an aggregate without GROUP BY time is stamped with the lower time bound;
+		// the INTEGRAL examples in the function reference show the epoch (1970-01-01T00:00:00Z)
+		// although their WHERE clause has a lower bound: both accepted.
+		if in[len(in)-1].T == 0 && len(in) > 1 {
+			exp.Notes["integral_last_point_at_epoch"] = "true"
+		}
+		row := c22ExpRow{TAlts: []int64{q.TLo, 0}, Cells: []c22ExpCell{c22One(outs[0].C)}}
+		if len(in) == 1 {
+			row.Optional = true // area under a single point: 0 or no row — not documented
+			s.Optional = true
+		}
+		s.Groups = append(s.Groups, []c22ExpRow{row})
+		return s
+	}
+	for _, o := range outs {
+		cell := c22One(o.C)
+		// the nested mean() values are not dyadic: the transformation then is a chain of
+		// roundings whose order is not specified (running sum vs. re-summation): 1e-12 relative
+		cell.Approx = c.Inner == "mean"
+		s.Groups = append(s.Groups, []c22ExpRow{{TAlts: []int64{o.T}, Cells: []c22ExpCell{cell}}})
+	}
+	if len(s.Groups) == 0 {
+		return nil
+	}
+	return s
+}
+
+type c23Out struct {
+	T int64
+	C c22Cell
+}
+
+// c23Seq: the documented definitions of the transformations over one time-ordered series with
+// unique timestamps. unit 0 = documented default (derivative/integral 1 s — or the GROUP BY
+// interval defUnit for the nested form —, elapsed 1 ns). Output timestamps: the later point
+// of each pair / the last point of each window; integral yields one value (time set by caller).
+func c23Seq(fn string, in []c22NumPt, unit, defUnit int64, n int) []c23Out {
+	var out []c23Out
+	add := func(t int64, cell c22Cell) { out = append(out, c23Out{t, cell}) }
+	if len(in) == 0 {
+		return nil
 	}
 	intIn := in[0].K == 'i'
-	switch c.Func {
+	switch fn {
 	case "difference", "non_negative_difference":
 		for k := 1; k < len(in); k++ {
 			if intIn {
 				d := in[k].I - in[k-1].I
-				if c.Func == "non_negative_difference" && d < 0 {
+				if fn == "non_negative_difference" && d < 0 {
 					continue
 				}
 				add(in[k].T, c22Cell{K: 'i', I: d})
 			} else {
 				d := in[k].F - in[k-1].F
-				if c.Func == "non_negative_difference" && d < 0 {
+				if fn == "non_negative_difference" && d < 0 {
 					continue
 				}
 				add(in[k].T, c22Cell{K: 'f', F: d})
@@ -1116,25 +1212,25 @@ func c22EvalXform(q *c22Query, g *c22Group, exp *c22Expect) *c22ExpSeries {
 		}
 	case "derivative", "non_negative_derivative":
 		if unit == 0 {
-			unit = 1e9 // documented default: 1s; with GROUP BY time and a nested call: the interval
-			if c.Inner != "" {
-				unit = q.Interval
+			unit = 1e9
+			if defUnit != 0 {
+				unit = defUnit
 			}
 		}
 		for k := 1; k < len(in); k++ {
 			d := in[k].f() - in[k-1].f()
-			if c.Func == "non_negative_derivative" && d < 0 {
+			if fn == "non_negative_derivative" && d < 0 {
 				continue
 			}
 			add(in[k].T, c22Cell{K: 'f', F: d / (float64(in[k].T-in[k-1].T) / float64(unit))})
 		}
 	case "moving_average":
-		for k := c.N - 1; k < len(in); k++ {
+		for k := n - 1; k < len(in); k++ {
 			sum := 0.0
-			for j := k - c.N + 1; j <= k; j++ {
+			for j := k - n + 1; j <= k; j++ {
 				sum += in[j].f()
 			}
-			add(in[k].T, c22Cell{K: 'f', F: sum / float64(c.N)})
+			add(in[k].T, c22Cell{K: 'f', F: sum / float64(n)})
 		}
 	case "cumulative_sum":
 		var si int64
@@ -1150,7 +1246,7 @@ func c22EvalXform(q *c22Query, g *c22Group, exp *c22Expect) *c22ExpSeries {
 		}
 	case "elapsed":
 		if unit == 0 {
-			unit = 1 // documented default: nanoseconds
+			unit = 1
 		}
 		for k := 1; k < len(in); k++ {
 			add(in[k].T, c22Cell{K: 'i', I: (in[k].T - in[k-1].T) / unit})
@@ -1163,16 +1259,9 @@ func c22EvalXform(q *c22Query, g *c22Group, exp *c22Expect) *c22ExpSeries {
 		for k := 1; k < len(in); k++ {
 			area += 0.5 * (in[k].f() + in[k-1].f()) * (float64(in[k].T-in[k-1].T) / float64(unit))
 		}
-		row := c22ExpRow{TAlts: []int64{q.TLo}, Cells: []c22ExpCell{c22One(c22Cell{K: 'f', F: area})}}
-		if len(in) == 1 {
-			row.Optional = true // area under a single point: 0 or no row — not documented
-		}
-		s.Groups = append(s.Groups, []c22ExpRow{row})
+		add(in[0].T, c22Cell{K: 'f', F: area})
 	}
-	if len(s.Groups) == 0 {
-		return nil
-	}
-	return s
+	return out
 }
 
 // distinct / top / bottom
